@@ -260,14 +260,46 @@ def validity_problem(T, pi, tol=1e-9):
     return None
 
 
-def call_impl(f, C, **kw):
+class _CpuTimeout(Exception):
+    pass
+
+
+class cpu_limit:
+    """interrupt a pure-Python computation after `seconds` of CPU time (SIGVTALRM; the runner's
+    own wall-clock guard uses SIGALRM)"""
+
+    def __init__(self, seconds):
+        self.seconds = seconds
+
+    def __enter__(self):
+        import signal
+
+        def handler(signum, frame):
+            raise _CpuTimeout()
+        self.old = signal.signal(signal.SIGVTALRM, handler)
+        signal.setitimer(signal.ITIMER_VIRTUAL, self.seconds)
+
+    def __exit__(self, *exc):
+        import signal
+        signal.setitimer(signal.ITIMER_VIRTUAL, 0)
+        signal.signal(signal.SIGVTALRM, self.old)
+        return False
+
+
+def call_impl(f, C, cpu_seconds=None, **kw):
     """run an estimator; returns dict(ok=(T,pi), warned=[...]) or dict(error=kind, msg=...)"""
     try:
         with warnings.catch_warnings(record=True) as w:
             warnings.simplefilter('always')
-            T, pi = f(C, **kw)
+            if cpu_seconds:
+                with cpu_limit(cpu_seconds):
+                    T, pi = f(C, **kw)
+            else:
+                T, pi = f(C, **kw)
         cats = [x.category.__name__ for x in w]
         return {'ok': (np.asarray(T, dtype=float), np.asarray(pi, dtype=float)), 'warned': cats}
+    except _CpuTimeout:
+        return {'error': 'cpu-timeout', 'msg': 'exceeded %s s of CPU time' % cpu_seconds}
     except AssertionError as e:
         return {'error': 'assertion', 'msg': str(e)[:200]}
     except TypeError as e:
@@ -297,11 +329,23 @@ def maxdiff(a, b):
     return max(float(np.max(np.abs(a[0] - b[0]))), float(np.max(np.abs(a[1] - b[1]))))
 
 
-def compare_with_model(ctx, C, impl, got, mres, what, replay):
-    """got: call_impl result of the real code, mres: model_result.  Returns True when they agree."""
+def compare_with_model(ctx, C, impl, got, mres, what, replay, rerun=None):
+    """got: call_impl result of the real code, mres: model_result.  Returns True when they agree.
+    rerun(tol) re-runs the implementation with another tolerance (used when one side ran into the
+    iteration cap because its pseudo log-likelihood keeps changing at rounding-noise level)."""
     if 'error' in got or 'error' in mres:
         if got.get('error') == mres.get('error'):
             return True
+        if {got.get('error'), mres.get('error')} == {'type-error', None} and rerun is not None:
+            # one side stopped, the other ran to the cap: decide with a doubled tolerance on both
+            g2 = rerun(2e-10)
+            m2 = model_result(ctx.driver([model_req(C, impl, tol=2e-10)])[0])
+            ref = got if 'ok' in got else mres
+            if 'ok' in g2 and 'ok' in m2 and maxdiff(g2['ok'], m2['ok']) <= 1e-6 \
+                    and maxdiff(g2['ok'], ref['ok']) <= 1e-6:
+                ctx.skip('stopping test at rounding-noise level: one of model/implementation ran to the '
+                         'iteration cap, both stop and agree with tol=2e-10')
+                return True
         ctx.disagreement('%s: implementation %s vs model %s' % (
             what, got.get('error', 'returned'), mres.get('error', 'returned')), replay)
         return False
@@ -344,16 +388,23 @@ def check_matrix(ctx, C, kind, m_py, m_c, sparse_fmt=None, int_dtype=False):
     run_py = not ('ok' in m_py and m_py['n_iter'] > PY_SWEEP_BUDGET) and m_py.get('error') != 'type-error'
     if run_py:
         snap = C.tobytes()
-        got_p = call_impl(builders._prinz_mle_py, C)
+        got_p = call_impl(builders._prinz_mle_py, C, cpu_seconds=ctx.n(20, 90))
         if C.tobytes() != snap:
             ctx.violation('_prinz_mle_py modified its argument', dict(rep, via='py'))
         results['py'] = got_p
     else:
         ctx.skip('pure-Python estimator not run: model needs more than %d sweeps' % PY_SWEEP_BUDGET)
 
+    fimpl = {'py': builders._prinz_mle_py, 'compiled': builders._prinz_mle}
     for impl, got in results.items():
         mres = m_py if impl == 'py' else m_c
         r = dict(rep, via=impl)
+        if got.get('error') == 'cpu-timeout':
+            ctx.skip('pure-Python estimator stopped by the CPU-time guard (slow convergence)')
+            continue
+
+        def rerun(tol, _f=fimpl[impl]):
+            return call_impl(_f, np.array(C, dtype=float), cpu_seconds=ctx.n(20, 90), tol=tol)
         # "terminates with a model (or a convergence warning) rather than an internal failure"
         if 'error' in got:
             if got['error'] == 'type-error':
@@ -364,14 +415,14 @@ def check_matrix(ctx, C, kind, m_py, m_c, sparse_fmt=None, int_dtype=False):
                 ctx.violation('%s estimator ended in an AssertionError (%s)' % (impl, got['msg']), r)
             else:
                 ctx.violation('%s estimator raised %s: %s' % (impl, got['error'], got['msg']), r)
-            compare_with_model(ctx, C, impl, got, mres, '%s estimator' % impl, r)
+            compare_with_model(ctx, C, impl, got, mres, '%s estimator' % impl, r, rerun=rerun)
             continue
         T, pi = got['ok']
         prob = validity_problem(T, pi)
         if prob:
             ctx.violation('%s estimator: %s' % (impl, prob), r)
             continue
-        compare_with_model(ctx, C, impl, got, mres, '%s estimator' % impl, r)
+        compare_with_model(ctx, C, impl, got, mres, '%s estimator' % impl, r, rerun=rerun)
         # Prinz self-consistency
         res = prinz_residual(C, T, pi)
         if res > TOL_RESID.get(kind, TOL_RESID_DEFAULT):
